@@ -154,10 +154,7 @@ def c05(tier):
         ta = "quick" if r == 0 else "thorough"
         j = J("areNeighborCells_r%d" % r, "C05_disk.c", ["-DARENBR", "-DRES=%d" % r], unwind=max(r + 2, 4), us=DL, est=400 + 400 * r, mem="M", tier=ta, timeout=3400, core=(r <= 1), bound="every pair of valid cells of res %d" % r)
         js += with_witness(j, tier=ta) if r == 0 else [j]
-    dk2 = dict(DL, **{"_gridDiskDistancesInternal.0": 20, "gridDiskDistancesUnsafe.0": 20, "memset.0": 20, "memset.1": 20})
-    for k in range(10):
-        dk2["harness.%d" % k] = 40
-    js += with_witness(J("k2_gridDiskDistances_r0", "C05_disk.c", ["-DK2", "-DRES=0"], unwind=5, us=dk2, est=3000, mem="X", tier="thorough", timeout=3400, core=False, bound="every cell of res 0, k=2"), tier="thorough")
+    # k = 2 end to end (gridDiskDistances vs two neighbour steps, res 0) was probed: 28 GB, no verdict - not registered
     for r in (0,):
         js.append(J("areNeighborCells_err_r%d" % r, "C05_disk.c", ["-DARENBR_ERR", "-DRES=%d" % r], unwind=max(r + 2, 4), us=DL, est=60, mem="M", bound="valid cell of res %d vs any 64-bit word" % r))
     return js
